@@ -19,7 +19,10 @@ RULE = ('(a) process_renames is called directly with each of the three real coll
         'answers are mapped to the Coq model and text, entity list and SyntaxError are compared (vm_compute); '
         '(b) perform_acl_rule_renames / perform_dropdown_condition_renames / perform_trigger_condition_renames are driven '
         'with a stub document model and compared with the model renamers and the colIds list model; '
-        '(c) end to end through the real engine: documents with ACL resources/rules (incl. a user attribute), dropdown '
+        '(the ACL stub places the rules that define the user attributes a formula mentions before, between and after '
+        'the formula rule and renames columns of the attribute lookup tables); '
+        '(c) end to end through the real engine: documents with ACL resources/rules (1-3 user attributes whose lookup '
+        'tables may differ from the rule table, attribute rules in random row-id order relative to the rules using them), dropdown '
         'conditions on Ref/RefList/other columns and trigger conditions (text and config mode), then RenameColumn / '
         'RenameTable / a bulk rename; oracle: new text = old text with exactly the expected name tokens replaced, '
         'parse(new) = rename of parse(old), stored parsed form = parse(stored text), column lists and lookup columns '
